@@ -848,6 +848,9 @@ func (f *fragment) unprotectedSetRow(row *Row, rowID uint64) (changed bool, err 
 	// invalidate rowCache for this row.
 	f.rowCache.Add(rowID, nil)
 
+	// Invalidate block checksum.
+	delete(f.checksums, int(rowID/HashBlockSize))
+
 	// Snapshot storage.
 	f.enqueueSnapshot()
 	f.stats.Count("setRow", 1, 1.0)
@@ -899,6 +902,9 @@ func (f *fragment) unprotectedClearRow(rowID uint64) (changed bool, err error) {
 	// Clear the row in cache.
 	f.cache.Add(rowID, 0)
 	f.rowCache.Add(rowID, nil)
+
+	// Invalidate block checksum.
+	delete(f.checksums, int(rowID/HashBlockSize))
 
 	// Snapshot storage.
 	f.enqueueSnapshot()
@@ -2293,6 +2299,8 @@ func (f *fragment) importRoaring(ctx context.Context, data []byte, clear bool) e
 		if changes == 0 {
 			continue
 		}
+		// Invalidate block checksum.
+		delete(f.checksums, int(rowID/HashBlockSize))
 		f.rowCache.Add(rowID, nil)
 		if updateCache {
 			anyChanged = true
